@@ -926,6 +926,13 @@ static void runRpdac(const Case &c) {
       StringDictionary *d2 = StringDictionaryRPDAC::load(ss);
       delete d; d = (StringDictionaryRPDAC *)d2;
       emit("RQ reloaded");
+    } else if (op[0] == "ri") { // the saved image with the counters it must carry
+      RePair *rp = d->rp;
+      string rules;
+      for (uint64_t k = 0; k < rp->rules; k++)
+        rules += (k ? "," : "") + std::to_string(rp->G->getField(2 * k)) + ":" + std::to_string(rp->G->getField(2 * k + 1));
+      emit("RI img=%s el=%zu ml=%u t=%llu mc=%u rules=%s", hex(saveImage(d)).c_str(), (size_t)d->numElements(), (uint)d->maxLength(),
+           (unsigned long long)rp->terminals, (uint)rp->maxchar, rules.empty() ? "-" : rules.c_str());
     } else if (op[0] == "rd") { // rd <query hex,query hex,...|->
       RePair *rp = d->rp;
       string rules, seqs, loc, qa;
